@@ -26,14 +26,18 @@ var Shapes = []Shape{
 	{metrics.Text, metrics.String},
 }
 
+// ShuffledBuckets marks (through the metric name suffix) specs whose histogram ranges are stored out of order.
+const ShuffledSuffix = "_shuf"
+
 // MetricSpec is a pure description from which a fresh metrics.Metric is built.
 type MetricSpec struct {
-	Shape  Shape
-	Name   string
-	Prog   string
-	Keys   []string
-	Labels [][]string // label tuples, in insertion order
-	ValRot int        // rotation into the value table
+	Shape          Shape
+	Name           string
+	Prog           string
+	Keys           []string
+	Labels         [][]string // label tuples, in insertion order
+	ValRot         int        // rotation into the value table
+	ShuffledRanges bool       // histogram ranges stored out of ascending order
 }
 
 var IntVals = []int64{0, 1, -1, 7}
@@ -59,6 +63,10 @@ func (s MetricSpec) Build() *metrics.Metric {
 	m.Source = s.Prog + ":1:1"
 	if s.Shape.Type == metrics.Buckets {
 		m.Buckets = BucketRanges
+		if s.ShuffledRanges {
+			// the store accepts ranges in any order; nothing but the DSL front end sorts them
+			m.Buckets = []datum.Range{BucketRanges[2], BucketRanges[0], BucketRanges[4], BucketRanges[1], BucketRanges[3]}
+		}
 	}
 	for i, l := range s.Labels {
 		d, err := m.GetDatum(l...)
